@@ -31,7 +31,7 @@ from gin import config as gc
 BOUNDS = ('11 callable shapes (plain / kw-only / *args / **kwargs functions, 1- and 2-level '
           'functools.wraps chains, classes with __init__ / __new__ / inherited / **kwargs '
           'constructors) x 3 registration calls x 5 list settings (none, 2 allowlists, 2 '
-          'denylists) x 9 parameter names (listed, unlisted, unknown, *args/**kw names) x '
+          'denylists) x 10 parameter names (listed, unlisted, unknown, *args/**kw names) x '
           '12 binding paths (string/tuple/text/block, each unscoped and scoped, hook, hook '
           'with a valid companion, text with skip_unknown, unregistered name) x 2 selector '
           'spellings: thorough enumerates the full product, quick a seeded sample of 2600; '
@@ -111,7 +111,7 @@ SHAPES = ['fn_plain', 'fn_kwonly', 'fn_varargs', 'fn_kwargs', 'fn_wrapped', 'fn_
           'cls_init', 'cls_new', 'cls_inherit', 'cls_kwonly', 'cls_kwargs']
 REGS = ['external', 'register', 'configurable']
 LISTS = ['none', 'allow_first', 'allow_last_extra', 'deny_first', 'deny_last']
-PARAMS = ['a', 'b', 'c', 'k', 'm', 'args', 'kw', 'zz', 'inner']
+PARAMS = ['a', 'b', 'c', 'k', 'm', 'args', 'kw', 'kwargs', 'zz', 'z']
 PATHS = ['str', 'tuple', 'text', 'block', 'scoped_str', 'scoped_tuple', 'scoped_text',
          'scoped_block', 'hook', 'hook_mixed', 'text_skip', 'unregistered']
 SPELL = ['full', 'short']
@@ -151,7 +151,7 @@ class _Hook:
 
 def _snap():
   return ({k: dict(v) for k, v in gc._CONFIG.items()}, gin.config_str(),
-          gin.config_is_locked())
+          gin.config_is_locked(), {k: dict(v) for k, v in gc._CONFIG_PROVENANCE.items()})
 
 
 def _j(snap):
@@ -185,9 +185,14 @@ def _bind(path, sel, p, companion):
   return scope
 
 
-def _received(call, scope):
-  with gin.config_scope(scope):
-    out = call(0)
+def _received(call, scope, supply_a=True):
+  """What the callable receives; every shape is callable with just `a` (or with `a`
+  bound), so a TypeError here means gin passed something the signature cannot take."""
+  try:
+    with gin.config_scope(scope):
+      out = call(0) if supply_a else call()
+  except TypeError as e:
+    return {'raised': str(e)[:80]}
   return out if isinstance(out, dict) else out.got
 
 
@@ -201,14 +206,14 @@ def _check_bind(case, fails):
   sig = inspect.signature(target)
   has_kw = any(q.kind is inspect.Parameter.VAR_KEYWORD for q in sig.parameters.values())
   allow, deny = _lists(case['lists'], explicit, has_kw)
-  kw = dict(name='tgt', module='pk.mod', allowlist=allow, denylist=deny)
+  kw = dict(module='pk.mod', allowlist=allow, denylist=deny)
   if case['reg'] == 'external':
-    call = gin.external_configurable(target, **kw)
+    call = gin.external_configurable(target, name='tgt', **kw)
   elif case['reg'] == 'register':
-    gin.register(**kw)(target)
+    gin.register('tgt', **kw)(target)
     call = gin.get_configurable('pk.mod.tgt')
   else:
-    call = gin.configurable(**kw)(target)
+    call = gin.configurable('tgt', **kw)(target)
 
   def other(v=0):
     return v
@@ -225,7 +230,12 @@ def _check_bind(case, fails):
   pre = [q for q in explicit + ['zz'] if q != p and _py_accepts(sig, q) and
          (allow is None or q in allow) and (deny is None or q not in deny) and q != 'a']
   if pre:
-    gin.bind_parameter('pk.mod.tgt.' + pre[0], 5)
+    try:
+      gin.bind_parameter('pk.mod.tgt.' + pre[0], 5)
+    except ValueError as e:
+      _fail(fails, 'valid_binding_accepted', 'tgt.%s accepted' % pre[0], str(e)[:80],
+            'path=str prebinding')
+      return
   before = _snap()
   tag = 'path=%s %s lists=%s' % (case['path'], 'cls' if inspect.isclass(target) else 'fn',
                                  case['lists'][:5])
@@ -247,8 +257,10 @@ def _check_bind(case, fails):
     if raised is not None or after[0] != want_cfg:
       _fail(fails, 'valid_binding_accepted', 'cell (%r, %s) = %d' % (scope, p, V),
             [type(raised).__name__, _j(after)], tag)
-    elif _received(call, scope).get(p) != V:
-      _fail(fails, 'valid_binding_accepted', {p: V}, _received(call, scope), tag + ' call')
+    else:
+      got = _received(call, scope, supply_a=p != 'a')
+      if got.get(p) != V:
+        _fail(fails, 'valid_binding_accepted', {p: V}, got, tag + ' call')
     return
   if raised is None and not silent_skip:
     _fail(fails, 'accepted_iff_configurable', 'raise for %s.%s' % (sel, p),
@@ -258,9 +270,8 @@ def _check_bind(case, fails):
     _fail(fails, 'rejection_leaves_config', _j(before),
           [_j(after), after[1] == before[1]], tag)
   if registered:
-    with gin.unlock_config():
-      got = _received(call, scope)
-    if got.get(p) == V or (p == 'args' and V in got.get('args', ())):
+    got = _received(call, scope)
+    if got.get(p) == V or 'raised' in got or (p == 'args' and V in got.get('args', ())):
       _fail(fails, 'never_injected', '%s not supplied' % p, got, tag)
 
 
